@@ -934,18 +934,22 @@ class Ev:
     def fn_ncalls(self, args):
         """ncalls(name): how many calls whose callee name contains `name` the function under
         contract has made so far (in its own body, not in callees)"""
-        if len(args) != 1 or args[0][0] != 'id':
-            raise SpecError('ncalls(<identifier>)')
+        if len(args) != 1 or args[0][0] not in ('id', 'str'):
+            raise SpecError('ncalls(<identifier or "callee substring">)')
         pat = args[0][1]
+        if isinstance(pat, bytes):
+            pat = pat.decode()
         self.cx.call_patterns.add(pat)
         return mathint(self.st.ghost.get('calls:' + pat, z3.IntVal(0)))
 
     def fn_lastseq(self, args):
         """lastseq(name): position, in the sequence of counted calls of the function under
         contract, of its most recent call whose callee name contains `name` (0: none yet)"""
-        if len(args) != 1 or args[0][0] != 'id':
-            raise SpecError('lastseq(<identifier>)')
+        if len(args) != 1 or args[0][0] not in ('id', 'str'):
+            raise SpecError('lastseq(<identifier or "callee substring">)')
         pat = args[0][1]
+        if isinstance(pat, bytes):
+            pat = pat.decode()
         self.cx.call_patterns.add(pat)
         return mathint(self.st.ghost.get('seq:' + pat, z3.IntVal(0)))
 
